@@ -1,8 +1,14 @@
-"""C05 - start conditions (history part): the current condition changes only
-through yybegin/yy_push_state/yy_pop_state; the stack is an unbounded LIFO
-whose underflow is a reported fatal error.  (Activation of rules per
-condition is checked by the flattening differential in c05 part B.)"""
-from simlib import scenario, workload
+"""C05 - start conditions.
+Part A (history): the current condition changes only through yybegin/yy_push_state/yy_pop_state; the
+stack is an unbounded LIFO whose underflow is a reported fatal error.
+Part B (activation, every third scenario): the scanner started in condition c behaves like the scanner
+generated from only the rules the manual declares active in c (flattening differential), and like the
+scanner generated from the same rules written inside (nested) start-condition scopes."""
+import copy
+
+from simlib import common, scenario, workload, model
+from simlib.engine import Case, Finding, WorkResult
+from simlib.plan import Plan, Source, Op, gen_input, gen_sched
 from . import streambase as sb
 
 ID = 'C05'
@@ -10,7 +16,11 @@ LEVEL = 'exploration'
 RULE = ('seeded scenarios with 1-4 inclusive/exclusive conditions x seeded histories of yybegin/yy_push_state/yy_pop_state/yy_top_state '
         'made from actions, <<EOF>> actions and between yylex calls, mixed with yyrestart, buffer switches, yywrap continuation and new yyin; '
         'stack depths beyond 25 and 50 with an always-moving realloc; model = an integer and a list, compared after every op, action entry, '
-        'yywrap call and yylex return; distinct = event-log hash, non-trivial = >= 3 condition ops executed')
+        'yywrap call and yylex return; distinct = event-log hash, non-trivial = >= 3 condition ops executed. '
+        'Part B (every third scenario): for every condition c of a seeded scenario with inclusive and exclusive conditions, <*> rules, '
+        'rules naming one or several conditions and rules naming none, the token stream of the scanner after yybegin(c) is compared, on '
+        'seeded inputs under seeded read schedules, with (1) the scanner generated from only the rules the manual declares active in c, all '
+        'conditions removed, and (2) the scanner generated from the same rules written inside nested start-condition scopes')
 TIERS = {
     'quick': {'scenarios': 40, 'plans': 100, 'wall_cap': 600},
     'thorough': {'scenarios': 1000, 'plans': 250, 'wall_cap': 3300},
@@ -22,7 +32,7 @@ EXPECTED_PROBES = ['start-stack-grown', 'pop-empty-stack', 'eof-action']
 
 class P(sb.StreamProp):
     ID = ID
-    CLASSES = {'start', 'fatal', 'activation'}
+    CLASSES = {'start', 'fatal', 'activation', 'scope'}
     USE_MATCHER = False
 
     def gen_scenario(self, rng):
@@ -39,13 +49,163 @@ class P(sb.StreamProp):
 PROP = P()
 
 
+# ---------------------------------------------------------------- part B
+def manual_active(sc, r, c):
+    """is rule r active in condition index c, as the manual states it (written independently of Scenario.active)"""
+    if r.is_eof:
+        return False
+    if r.star:
+        return True
+    if r.conds:
+        return c in r.conds
+    return not sc.conds[c][1]        # no condition named: active in inclusive conditions only (INITIAL is inclusive)
+
+
+def flatten(sc, c):
+    f = copy.copy(sc)
+    f._matchers = {}
+    f.conds = [('INITIAL', False)]
+    f.rules = []
+    for i, r in enumerate(sc.rules):
+        if manual_active(sc, r, c):
+            q = copy.copy(r)
+            q.styles = dict(r.styles)
+            q.ident = i + 1
+            q.conds = []
+            q.star = False
+            f.rules.append(q)
+    return f
+
+
+def scoped(sc):
+    t = copy.copy(sc)
+    t._matchers = {}
+    t.scoped = True
+    return t
+
+
+def toks(res):
+    out = []
+    for ev in res.events:
+        if ev['k'] == 'T':
+            out.append(('T', ev['rule'], ev.get('text'), ev['len']))
+        elif ev['k'] == 'F':
+            out.append(('F', ev.get('msg')))
+        elif ev['k'] == 'L':
+            out.append(('L', ev['ret']))
+    return out
+
+
+def b_plan(rng, sc, c):
+    p = Plan()
+    p.junk_seed = rng.randint(1, 1 << 30)
+    data = gen_input(rng, sc.alphabet, rng.choice([1, 3, 8, 20, 40]), stray=0.03)
+    p.sources = [Source(data, gen_sched(rng))]
+    it = p.insts[0]
+    it.top = [Op('INIT'), Op('BEGIN', a=c), Op('SWITCHNEW', a=rng.choice([1, 2, 3, 8, 64, 16384])), Op('LEX', a=5000), Op('DESTROY')]
+    return p
+
+
+def without_begin(p):
+    q = p.copy()
+    q.insts[0].top = [op for op in q.insts[0].top if op.name != 'BEGIN']
+    return q
+
+
+def b_compare(ra, rb, what):
+    a, b = toks(ra), toks(rb)
+    if a == b:
+        return None
+    i = next((i for i in range(min(len(a), len(b))) if a[i] != b[i]), min(len(a), len(b)))
+    return 'item %d: the scanner with start conditions gives %s, %s gives %s' % (i, a[i] if i < len(a) else None, what, b[i] if i < len(b) else None)
+
+
+def work_b(ctx, idx):
+    wr = WorkResult()
+    cfg = TIERS[ctx.tier]
+    rng = ctx.rng('scnB', idx)
+    sc = scenario.gen_scenario(rng, want={'feats': ('conds', 'xconds', 'star'), 'stack': True, 'flavors': ['nr', 'r', 'cxx']},
+                               forbid=('eofrules', 'bar', 'vtrail'))
+    ss = scoped(sc)
+    b, bsc = ctx.build(sc), ctx.build(ss)
+    if not b.ok or not bsc.ok:
+        if b.ok != bsc.ok and 'dangerous' not in (b.msg + bsc.msg):
+            wr.findings.append(Finding('scope', 'only one of the prefixed / scoped renderings of a rule set is accepted: %s | %s' % (b.msg[-150:], bsc.msg[-150:]),
+                                       Case(ID, {'main': sc, 'scoped': ss}, Plan(), meta={'kind': 'partB-build'}), -1, 'scn %d' % idx))
+        wr.refused += 1
+        return wr
+    wr.scenarios = 1
+    wr.stats['back-end:' + sc.flavor] += 1
+    wr.stats['partB-scenarios'] += 1
+    per = {'activation': 0, 'scope': 0}
+    for c in range(sc.nconds()):
+        fl = flatten(sc, c)
+        bf = ctx.build(fl)
+        if not bf.ok:
+            if 'dangerous' not in bf.msg:
+                wr.notes.append('scn %d cond %d: flattened scenario not built (%s): %s' % (idx, c, bf.stage, bf.msg.strip()[-160:]))
+            continue
+        plans = [('c%dp%d' % (c, j), b_plan(ctx.rng('scnB', idx, c, j), sc, c)) for j in range(max(4, cfg['plans'] // 5))]
+        ra = common.run_batch(b.exe, [(k, p.text()) for k, p in plans])
+        rs = common.run_batch(bsc.exe, [(k, p.text()) for k, p in plans])
+        rf = common.run_batch(bf.exe, [(k, without_begin(p).text()) for k, p in plans])
+        for k, p in plans:
+            if k not in ra or k not in rs or k not in rf:
+                continue
+            if any(sb.status_class(r) is not None for r in (ra[k], rs[k], rf[k])):
+                continue         # crashes and hangs belong to other classes and other checks
+            wr.evaluations += 1
+            wr.hashes.add(ra[k].loghash())
+            wr.stats['partB-condition-' + ('exclusive' if sc.conds[c][1] else 'inclusive')] += 1
+            if sum(1 for ev in ra[k].events if ev['k'] == 'T') >= 2:
+                wr.nontrivial.add(ra[k].loghash())
+            for cls, rb, what in (('activation', rf[k], 'the scanner built from the rules active in condition %d only' % c),
+                                  ('scope', rs[k], 'the scanner built from the same rules written in nested scopes')):
+                d = b_compare(ra[k], rb, what)
+                if d and per[cls] < 2:
+                    per[cls] += 1
+                    wr.findings.append(Finding(cls, d, Case(ID, {'main': sc, 'scoped': ss, 'flat': fl}, p, meta={'kind': 'partB', 'cond': c, 'scn': idx}), -1,
+                                               'scn %d cond %d %s' % (idx, c, k)))
+    return wr
+
+
 def work(ctx, idx):
+    if idx % 3 == 2:
+        return work_b(ctx, idx)
     return sb.work(PROP, ctx, idx, TIERS[ctx.tier]['plans'])
 
 
 def evaluate(ctx, case):
+    kind = case.meta.get('kind')
+    if kind == 'partB-build':
+        b, bsc = ctx.build(case.scs['main']), ctx.build(case.scs['scoped'])
+        if b.ok != bsc.ok:
+            return [model.Viol('scope', -1, 'only one of the prefixed / scoped renderings of a rule set is accepted')], {}
+        return [], {}
+    if kind == 'partB':
+        sc, ss, fl = case.scs['main'], case.scs['scoped'], case.scs['flat']
+        b, bsc, bf = ctx.build(sc), ctx.build(ss), ctx.build(fl)
+        if not (b.ok and bsc.ok and bf.ok):
+            return [], {}
+        p = case.plan
+        ra = common.run_one(b.exe, p.text(), timeout=ctx.run_timeout)
+        rs = common.run_one(bsc.exe, p.text(), timeout=ctx.run_timeout)
+        rf = common.run_one(bf.exe, without_begin(p).text(), timeout=ctx.run_timeout)
+        if any(sb.status_class(r) is not None for r in (ra, rs, rf)):
+            return [], {'main': ra, 'scoped': rs, 'flat': rf}
+        out = []
+        c = case.meta.get('cond')
+        d = b_compare(ra, rf, 'the scanner built from the rules active in condition %s only' % c)
+        if d:
+            out.append(model.Viol('activation', -1, d))
+        d = b_compare(ra, rs, 'the scanner built from the same rules written in nested scopes')
+        if d:
+            out.append(model.Viol('scope', -1, d))
+        return out, {'main': ra, 'scoped': rs, 'flat': rf}
     return sb.evaluate(PROP, ctx, case)
 
 
 def features(ctx, case, cls, detail):
+    if str(case.meta.get('kind', '')).startswith('partB'):
+        return {'class': cls, 'part': 'B'}
     return sb.features(PROP, ctx, case, cls, detail)
